@@ -1,5 +1,5 @@
 #!/bin/bash
-# fuzz/run.sh <target> <workers> <runs-per-worker> <seed> <max_len> <property-id> <family>
+# fuzz/run.sh <target> <workers> <runs-per-worker> <seed> <max_len> <property-id> <family>[,<family>...]
 # Coverage-guided stage: builds the libFuzzer target against /repo's current tree, runs <workers>
 # independent campaigns (seeds seed*64+i+1, fixed -runs, own corpus directory seeded with the
 # repository's scripts plus the empty input), and converts any crash artifact into a replay file
@@ -43,9 +43,12 @@ fi
 : > "$W/seedcorpus/empty"
 start=$(date +%s)
 pids=()
+# a comma-separated family list spreads the workers over the families (worker k gets family k mod n);
+# the `prop` target reads the property and the family of its campaign from the environment
+IFS=',' read -r -a FAMILIES <<< "$FAMILY"
 for k in $(seq 0 $((WORKERS-1))); do
   mkdir -p "$W/corpus$k"
-  ( cd "$W" && "$BIN" "corpus$k" seedcorpus -runs="$RUNS" -seed=$((SEED*64+k+1)) -max_len="$MAXLEN" -len_control=0 \
+  ( cd "$W" && VERIF_FUZZ_PROP="$PID_" VERIF_FUZZ_FAMILY="${FAMILIES[$((k % ${#FAMILIES[@]}))]}" "$BIN" "corpus$k" seedcorpus -runs="$RUNS" -seed=$((SEED*64+k+1)) -max_len="$MAXLEN" -len_control=0 \
       -timeout=$([ "$TARGET" = "compile" ] && echo 60 || echo 300) -rss_limit_mb=4096 -malloc_limit_mb=2048 -print_final_stats=1 -artifact_prefix="artifacts/w$k-" \
       >"log$k.txt" 2>&1 ) &
   pids+=($!)
@@ -59,7 +62,7 @@ for k in $(seq 0 $((WORKERS-1))); do
   c=$(grep -a -o 'cov: [0-9]*' "$W/log$k.txt" | tail -1 | awk '{print $2}'); [ "${c:-0}" -gt "$cov" ] && cov=$c
   n=$(ls "$W/corpus$k" | wc -l); corp=$((corp+n))
 done
-echo "FUZZSTATS {\"target\":\"$TARGET\",\"workers\":$WORKERS,\"runs_per_worker\":$RUNS,\"executions\":$execs,\"max_edge_coverage\":$cov,\"new_corpus_entries\":$corp,\"seed_inputs\":$((i+1)),\"max_len\":$MAXLEN,\"seed\":$SEED,\"wall_s\":$((end-start))}"
+echo "FUZZSTATS {\"target\":\"$TARGET\",\"workers\":$WORKERS,\"runs_per_worker\":$RUNS,\"executions\":$execs,\"max_edge_coverage\":$cov,\"new_corpus_entries\":$corp,\"seed_inputs\":$((i+1)),\"max_len\":$MAXLEN,\"families\":\"$FAMILY\",\"seed\":$SEED,\"wall_s\":$((end-start))}"
 rc=0
 skipped=0
 arts=$(ls "$W/artifacts" 2>/dev/null)
@@ -68,7 +71,8 @@ if [ -n "$arts" ]; then
   for a in $arts; do
     kind=${a#w*-}; kind=${kind%%-*}
     out="$ROOT/replays/new/$PID_-libfuzzer-$a.json"
-    python3 - "$W/artifacts/$a" "$out" "$PID_" "$FAMILY" <<'PY'
+    wk=$(echo "$a" | sed 's/^w\([0-9]*\)-.*/\1/')
+    python3 - "$W/artifacts/$a" "$out" "$PID_" "${FAMILIES[$((wk % ${#FAMILIES[@]}))]}" <<'PY'
 import sys,json
 b=open(sys.argv[1],'rb').read()
 json.dump({"property":sys.argv[3],"family":sys.argv[4],"bytes_hex":b.hex(),"note":"libFuzzer artifact "+sys.argv[1].split('/')[-1]},open(sys.argv[2],'w'),indent=1)
